@@ -38,6 +38,9 @@ type BridgeCfg struct {
 	// EstimateHoldPerMille: chance that the relayers' RPC nodes cannot simulate a particular message for a while,
 	// so that its gas estimate is elected later than that of younger messages.
 	EstimateHoldPerMille int
+	// AttestHoldPerMille: chance that the relayers' RPC nodes do not see the delivery transaction of a particular message
+	// for a while (reorg depth, lagging node), so that it stays delivered-but-unattested for several blocks.
+	AttestHoldPerMille int
 	// NoAcctOn: validator index -> chains on which it never registers an account (it has accounts on the others).
 	NoAcctOn map[int]map[string]bool
 	// NoChainVals: validators that never register external accounts.
@@ -55,6 +58,7 @@ type BridgeCfg struct {
 // Bridge is a Sim plus remote chains and one pigeon per validator.
 type Bridge struct {
 	estHold map[uint64]int64
+	attHold map[uint64]int64
 	*Sim
 	BCfg    BridgeCfg
 	Chains  map[string]*evmsim.Chain
@@ -164,6 +168,26 @@ func (b *Bridge) holdEstimate(id uint64) bool {
 			b.R.Stats.Fault("estimate_held_back")
 		}
 		b.estHold[id] = until
+	}
+	return b.N.Height < until
+}
+
+// holdAttest decides once per message (for all relayers alike) whether attesting is held back, and until when.
+func (b *Bridge) holdAttest(id uint64) bool {
+	if b.BCfg.AttestHoldPerMille == 0 {
+		return false
+	}
+	if b.attHold == nil {
+		b.attHold = map[uint64]int64{}
+	}
+	until, seen := b.attHold[id]
+	if !seen {
+		until = 0
+		if b.T.Chance(uint64(b.BCfg.AttestHoldPerMille), 1000) {
+			until = b.N.Height + int64(2+b.T.Intn(10))
+			b.R.Stats.Fault("attestation_held_back")
+		}
+		b.attHold[id] = until
 	}
 	return b.N.Height < until
 }
